@@ -769,6 +769,17 @@ class SStr:
                     out.append(ch)                      # e.g. lower() of lower-case hex digits: unchanged, origin kept
                     wd.append(w)
                     continue
+            if k is not None and max(k) < 128:
+                # output of a lookup table: the case-mapped character is a lookup in the case-mapped table (origin kept)
+                t8 = sym.strip_zext(ch)
+                org = sym.origin_of(t8)
+                if org is not None and t8.size() == 8:
+                    T, idx = org
+                    vals = [ord(chr(v).upper() if up else chr(v).lower()) for v in T.values]
+                    r = sym.STable(vals, T.name + (".upper" if up else ".lower"), 8)[idx]
+                    out.append(chr(r) if isinstance(r, int) else (chr(r.concrete()) if r.concrete() is not None else z3.ZeroExt(13, r.e)))
+                    wd.append(w)
+                    continue
             if (k is not None and max(k) < 128) or bool(SBool(z3.ULT(ch, 128))):
                 lo, hi, d = (0x61, 0x7A, -32) if up else (0x41, 0x5A, 32)
                 out.append(z3.If(z3.And(z3.UGE(ch, lo), z3.ULE(ch, hi)), ch + z3.BitVecVal(d % (1 << 21), 21), ch))
